@@ -17,7 +17,10 @@ RULE = (
     "generated documents; every subset of assignments (k<=5 exhaustively, "
     "sampled beyond) has its value removed (top level, nested, first/last in "
     "a block, adjacent runs, before block keywords, ';', END, end of text); "
-    "3 random layouts each (LF/CRLF lines, comments). distinct = (seed, "
+    "3 random layouts each (LF/CRLF lines, comments); the default loader "
+    "called in 5 ways (fresh parser, pvl.loads(text), one long-lived parser "
+    "per worker, caller's container classes derived from the defaults / built "
+    "on the multi-dict). distinct = (seed, "
     "subset, layout); non-trivial = at least one value removed"
 )
 G = gt
@@ -84,6 +87,53 @@ def placeholders(module, out=None):
     return out
 
 
+_STATE = {}
+
+
+def default_load(pvl, text, how):
+    """The default loader, called in one of the ways a caller may call it."""
+    col = pvl.collections
+    if how == "fresh-parser":
+        return load(pvl, "default", text, parser=pvl.parser.OmniParser())
+    if how == "long-lived-parser":
+        # one OmniParser object for the life of the worker, as pvl_validate
+        # keeps one: line numbers must not depend on the texts it saw before
+        if "parser" not in _STATE:
+            _STATE["parser"] = pvl.parser.OmniParser()
+        return load(pvl, "default", text, parser=_STATE["parser"])
+    if "classes" not in _STATE:
+        # the caller's own container classes (same class names, so that the
+        # tree comparison reads them like the defaults): subclasses of the
+        # default classes, and classes built directly on the multi-dict
+        _STATE["classes"] = {
+            "subclasses": dict(
+                module_class=type("PVLModule", (col.PVLModule,), {}),
+                group_class=type("PVLGroup", (col.PVLGroup,), {}),
+                object_class=type("PVLObject", (col.PVLObject,), {})),
+            "own-classes": dict(
+                module_class=type("PVLModule", (col.OrderedMultiDict,), {}),
+                group_class=type("PVLGroup", (col.OrderedMultiDict,), {}),
+                object_class=type("PVLObject", (col.OrderedMultiDict,), {})),
+        }
+    LexerError = pvl.exceptions.LexerError
+    ParseError = pvl.exceptions.ParseError
+    kw = {} if how == "loads(text)" else _STATE["classes"][how]
+    try:
+        with common.cpu_limit(30):
+            return ("ok", pvl.loads(text, **kw))
+    except LexerError as e:
+        return ("LexerError", e)
+    except ParseError as e:
+        return ("ParseError", e)
+    except common.CaseTimeout:
+        return ("timeout", None)
+    except Exception as e:
+        return (type(e).__name__, e)
+
+
+HOWS = ("fresh-parser", "loads(text)", "long-lived-parser", "subclasses", "own-classes")
+
+
 def case(rec, pvl, key, tier):
     rng = random.Random(key)
     while True:
@@ -148,13 +198,25 @@ def case(rec, pvl, key, tier):
                      sample={"seed": key, "text": text[:400],
                              "expected_errors": sorted(want_lines.values())}
                      if rec.c["evaluations"] % 3001 == 0 else None)
-            st, res = load(pvl, "default", text, parser=pvl.parser.OmniParser())
+            how = rng.choice(HOWS)
+            rec.count(f"called[{how}]")
+            st, res = default_load(pvl, text, how)
             feats = {"dash_continuation_in_text": dash,
                      "equals_sign_in_comment_near_gap": eq_in_gap,
                      "adjacent_missing": any(
-                         a[0] + 1 == b[0] for a in chosen for b in chosen)}
+                         a[0] + 1 == b[0] for a in chosen for b in chosen),
+                     "differs_from_fresh_default_parser": False}
             wit = {"seed": key, "text": text, "removed_statements":
-                   sorted(s for s, _, _ in chosen)}
+                   sorted(s for s, _, _ in chosen), "called": how}
+            if how != "fresh-parser" and st == "ok":
+                # is it the text, or the way the loader was called?
+                st0, res0 = default_load(pvl, text, "fresh-parser")
+                same = st0 == "ok" and \
+                    sorted(l for _, l in placeholders(res0)) == \
+                    sorted(l for _, l in placeholders(res)) and \
+                    getattr(res0, "errors", None) == getattr(res, "errors", None)
+                if not same:
+                    feats["differs_from_fresh_default_parser"] = how
             if st == "timeout":
                 rec.inconc(f"CPU budget exceeded {key}")
                 continue
@@ -215,10 +277,14 @@ def finish_kwargs(rec, tier):
            "gap_followed_by[end-keyword]", "gap_followed_by[begin-keyword]",
            "gap_followed_by[END]", "gap_followed_by[end-of-text]"]
     req += [f"strict_checked[{r}]" for r in ("PVL", "ODL", "PDS3")]
+    req += [f"called[{h}]" for h in HOWS]
     return dict(required_counters=req,
                 assumptions=["line number = number of LF characters before the "
                              "'=' plus one (layouts use LF / CRLF line ends "
-                             "only); a fresh OmniParser per load"])
+                             "only); the default loader is called as a fresh "
+                             "OmniParser, as pvl.loads(text), through one "
+                             "long-lived OmniParser per worker, and with the "
+                             "caller's own container classes"])
 
 
 def replay(data):
